@@ -45,7 +45,7 @@ from common import CACHE, Rng, coq_list, sh  # noqa: E402
 from translate import desc as tdesc  # noqa: E402
 from translate import fprog as tfprog  # noqa: E402
 
-TIE_REQ = ["Tie_equate_partition", "Tie_exec_iterW_astep", "Tie_step_same_quotient", "Tie_close_closed", "Tie_cu_true",
+TIE_REQ = ["Tie_wf_rules_b_sound", "Tie_famok_check_sound", "Tie_famsound_check_sound", "Tie_equate_partition", "Tie_exec_iterW_astep", "Tie_step_same_quotient", "Tie_close_closed", "Tie_cu_true",
            "Tie_cu_false", "Tie_cu_resume", "Tie_iter_boundN"]
 FUEL = 60
 SEARCH_CAP = 4096
@@ -921,7 +921,8 @@ def tie_worker(args):
 # ====================================================================================== Coq side
 
 HEADER1 = ("Require Import List NArith. Import ListNotations.\n"
-           "Require Import Engine.Model Engine.Run Engine.ModelW Engine.RunW.\nOpen Scope N_scope.\n")
+           "Require Import Engine.Model Engine.FactsBasic Engine.FactsInv Engine.FactsFam Engine.FactsFamCheck Engine.Run Engine.ModelW Engine.RunW.\n"
+           "Open Scope N_scope.\n")
 
 
 def norm_of_coq(snap, handles, nt):
@@ -966,6 +967,64 @@ def _replay(res, h, extra=None):
     if extra:
         r.update(extra)
     return r
+
+
+def program_hypotheses(ctx, res, v, pid, st):
+    """Obligations engine-hyp:<prog>:wf_rules / FamOK / FamSound from the values computed in Coq (wf_rule_b, famok_check,
+    famsound_check of FactsFamCheck.v; sound by Tie_wf_rules_b_sound, Tie_famok_check_sound, Tie_famsound_check_sound)."""
+    from translate import flat as tflat
+    (wf, fok, fsnd, uncovered, foreign) = v
+    fp = res["fp"]
+    name = "p%d" % res["idx"]
+    st["hyp_programs"] = st.get("hyp_programs", 0) + 1
+    st["hyp_families"] = st.get("hyp_families", 0) + len(fp["families"])
+    ctx.obligation("engine-hyp:%s:wf_rules" % name, wf == "true", "%d sub-rules" % len(fp["rules"]))
+    if wf != "true":
+        ctx.broken.append("engine hypothesis wf_rules fails for a translated program (a conclusion variable does not occur in the premise)\n%s" % res["text"][:600])
+    # reference sub-rules / emitted sub-rules by position -> family
+    ref_owner = []
+    for f in fp["families"]:
+        n = 1 if f["kind"] in ("func", "empty") else len(f["src"]["prem"])
+        ref_owner += [f] * n
+    em_owner = {}
+    for f in fp["families"]:
+        for i in f["members"]:
+            em_owner[i] = f
+    problems = [(f["name"], pb) for f in fp["families"] for pb in f["problems"]]
+    detail = "%d families" % len(fp["families"])
+    ctx.obligation("engine-hyp:%s:FamOK" % name, fok == "true", detail)
+    ctx.obligation("engine-hyp:%s:FamSound" % name, fsnd == "true", detail)
+    if fok == "true" and fsnd == "true":
+        return
+    bad_fams = []
+    for pos in (uncovered if fok != "true" else []):
+        if pos < len(ref_owner) and ref_owner[pos] not in bad_fams:
+            bad_fams.append(ref_owner[pos])
+    for pos in (foreign if fsnd != "true" else []):
+        if pos in em_owner and em_owner[pos] not in bad_fams:
+            bad_fams.append(em_owner[pos])
+    for f in bad_fams[:3]:
+        members = [{"name": fp["rules"][i]["name"], "premise": ["%s%d(%s) [%s]" % ("TySet" if a[0] == "ty" else "rel", a[1], ",".join(map(str, a[2])), a[3])
+                                                                 for a in fp["rules"][i]["prem"]]} for i in f["members"]]
+        rows = tfprog.family_rows(f, fp["rules"])
+        lab = tflat.failing_labelling(rows, len(f["src"]["prem"])) if rows else None
+        rep = {"kind": "family", "property": "C16", "program": res["text"], "family": f["name"], "subrules": members,
+               "family_problems": f["problems"], "famok_check": fok, "famsound_check": fsnd}
+        what = "engine hypothesis %s fails for family %s" % ("FamOK" if fok != "true" else "FamSound", f["name"])
+        if lab is not None:
+            rep["labelling_new"] = lab[0]
+            rep["enumerated_by"] = lab[1]
+            rep["expected"] = lab[2]
+            what += ": the labelling new=%s of its premise atoms is enumerated by %s sub-rules (expected %s)" % (lab[0], lab[1], lab[2])
+        if lab is not None and lab[1] == 0 and any(lab[0]):
+            # a match that uses a new row and is enumerated by NO sub-rule: completeness of close() is at stake
+            rep["property"] = pid if pid in ("C01", "C16") else "C01"
+            ctx.violation(rep, what)
+        else:
+            ctx.broken.append(what + "\nsub-rules: %s\nprogram:\n%s" % (members, res["text"][:600]))
+            ctx.write_replay(rep)
+    if not bad_fams:
+        ctx.broken.append("engine hypothesis FamOK/FamSound fails for a translated program (%s)\n%s" % (problems[:3], res["text"][:600]))
 
 
 def engine_tie(ctx, results_or_programs, pid, nprog=None, nhist=None, nmerge=None):
@@ -1038,12 +1097,14 @@ def engine_tie(ctx, results_or_programs, pid, nprog=None, nhist=None, nmerge=Non
         if res["status"] != "ok":
             continue
         todo = [h for h in res["hist"] if h.get("status") in ("ok", "diff")]
-        if not todo:
-            continue
         s = load.index(min(load))
-        load[s] += 1 + sum(len(h["calls"]) + 5 * sum(len(c["impl"]) for c in h["closes"]) for h in todo)
-        shards[s][0].append("Definition P%d : fprogram := %s.\nDefinition W%d : wtable := %s." % (
-            res["idx"], tfprog.fprogram_coq(res["fp"]), res["idx"], tfprog.weights_coq(res["fp"])))
+        load[s] += 3 + sum(len(h["calls"]) + 5 * sum(len(c["impl"]) for c in h["closes"]) for h in todo)
+        shards[s][0].append("Definition P%d : fprogram := %s.\nDefinition W%d : wtable := %s.\nDefinition S%d : list frule := %s." % (
+            res["idx"], tfprog.fprogram_coq(res["fp"]), res["idx"], tfprog.weights_coq(res["fp"]), res["idx"], tfprog.src_coq(res["fp"])))
+        # the hypotheses of the engine theorems about THIS program, as instance obligations
+        shards[s][1].append("(forallb wf_rule_b (fp_rules P%d), famok_check S%d (fp_rules P%d), famsound_check S%d (fp_rules P%d), "
+                            "famok_uncovered S%d (fp_rules P%d), famsound_foreign S%d (fp_rules P%d))" % ((res["idx"],) * 9))
+        where[s].append((res, None))
         for h in todo:
             adv = coq_list(h["advice"], lambda cl: coq_list(cl, lambda pr: coq_list(pr)))
             shards[s][1].append("run_engineW %d P%d W%d %s %s" % (FUEL, res["idx"], res["idx"], adv,
@@ -1063,6 +1124,9 @@ def engine_tie(ctx, results_or_programs, pid, nprog=None, nhist=None, nmerge=Non
     pending_verdicts = []
     for s in range(16):
         for (res, h), v in zip(where[s], vals[s] if vals else []):
+            if h is None:
+                program_hypotheses(ctx, res, v, pid, st)
+                continue
             prog = res["prog"]
             sig = prog["sig"]
             nrel, nt = len(sig["rels"]), sig["ntypes"]
